@@ -69,6 +69,10 @@ def hand_list():
                     out.append("PUSH %s PUSH %s PUSH %s %s" % (a, b, c, op))
             out += ["PUSH %s SWAP2 %s" % (a, op), "PUSH %s %s" % (a, op), "PUSH %s SWAP1 %s" % (a, op)]
     out.append(" ".join(["DUP1 ADD"] * 21))       # every result feeds both operands of the next operation
+    # blocks that are optimized and on which the block checker then raises a bare ValueError (chained loads whose subterm
+    # dependences come out in another order in the re-analysed block): the failure has to be contained like any other
+    out += ["SLOAD ADDRESS SLOAD DUP2 CALLDATALOAD ADDRESS PUSH 1 PUSH 2 ADD",
+            "XOR CALLDATALOAD SLOAD MLOAD PUSH 40 PUSH 1 PUSH 2 GT PUSH 20 ADDRESS PUSH 40"]
     out += ["NOT NOT", "NOT NOT NOT", "NOT NOT NOT NOT", "DUP1 NOT NOT", "PUSH 0 NOT NOT", "PUSH %s NOT NOT" % M256,
             "NOT NOT ISZERO", "ISZERO NOT NOT", "CALLER NOT NOT POP", "NOT ISZERO", "NOT"]
     for n in range(1, 13):
